@@ -215,6 +215,9 @@ class Pipe:
         self.nsteps = 0
         self.exp = np.array(self.z.data.real, dtype=np.float64)  # index-coded real parts
         self.exact = True
+        # the instant of the current first sample named by ANOTHER route: the original start time plus everything dropped since (only while the
+        # rate and the start time have not been re-assigned and no stepped slice was taken)
+        self.t_orig, self.dropped_total = self.z.start_time, F(0)
         self.st.label("cls_" + spec["cls"])
 
     def _after(self, y, dropped, newL, what, step=1):
@@ -234,6 +237,11 @@ class Pipe:
         if step > 1:
             self.r = self.r / step
             self.nsteps += 1
+            self.t_orig = None
+        if self.L > 0 and newL > 0:
+            self.dropped_total += F(dropped)
+        else:
+            self.t_orig = None
         self.L = newL
         self.nops += 1
         if dropped > 0 and newL > 0:
@@ -342,9 +350,12 @@ class Pipe:
             arg = (t / self.z.sample_rate).to(u.s)
         elif form == "dt":
             arg = t * self.z.dt
+        elif form == "time_abs":
+            # the same instant computed from the ORIGINAL start time: equal to the current start + t samples up to the rounding of a Time
+            arg = self.t_orig + float(self.dropped_total + F(t)) / self.z.sample_rate
         else:
             arg = self.z.start_time + t / self.z.sample_rate
-        with lib("snippet"):
+        with lib("snippet(%s)" % form):
             y = pb.snippet(self.z, arg, n)
         if self.exp is not None:
             self.exp = self.exp[int(t) : int(t) + n] if whole else None
@@ -364,6 +375,7 @@ class Pipe:
             if self.spec["cls"] in G.BASEBAND:
                 self.z.chan_bw = newq  # (baseband: channel width = sample rate)
         self.r = O.hz(newq)
+        self.t_orig = None
         self.nops += 1
         check_clock(self.z, self.T, self.r, self.L, self.nops, self.off, self.nsteps, f"op{self.nops}:sample_rate *= {fac}")
         self.st.label("op_set_rate")
@@ -401,6 +413,7 @@ class Pipe:
         with lib("start_time assignment"):
             self.z.start_time = t
         self.T = None if t is None else O.T(t)
+        self.t_orig = None
         self.off = F(0)
         self.nops += 1
         check_clock(self.z, self.T, self.r, self.L, self.nops, self.off, self.nsteps, f"op{self.nops}:start_time = {t0}")
@@ -550,7 +563,8 @@ class PipeMachine(HistoryMachine):
     def snip(self, data):
         L = self.model.L
         n = data.draw(st.one_of(st.integers(0, L), st.integers(0, min(L, 3))))
-        forms = ["int", "float", "dur", "dt"] + (["time"] if self.model.T is not None else [])
+        forms = ["int", "float", "dur", "dt"] + (["time"] if self.model.T is not None else []) + (
+            ["time_abs", "time_abs"] if self.model.T is not None and self.model.t_orig is not None and self.model.dropped_total > 0 else [])
         form = data.draw(st.sampled_from(forms))
         t = data.draw(st.integers(0, L - n))
         if form == "float" and n < L - t and data.draw(st.booleans()):
